@@ -1660,3 +1660,54 @@ func ruleLexQueue(c *Ctx) []Obligation {
 	}
 	return obs
 }
+
+// ---------------------------------------------------------------- CACHE.COHERENT (w10 observation C13/O2)
+
+func init() {
+	register(&Rule{Name: "CACHE.COHERENT", Props: []string{"C18", "C13"}, Floor: 1,
+		Doc: "whatever empties the entry cache also empties the record of which submodules the cached entries have merged in: the record describes the cached entries",
+		Run: ruleCacheCoherent})
+}
+
+func ruleCacheCoherent(c *Ctx) []Obligation {
+	const R = "CACHE.COHERENT"
+	mods := c.MustNamed("yang", "Modules")
+	fCache, fMerged := FieldVar(mods, "entryCache"), FieldVar(mods, "mergedSubmodule")
+	if fCache == nil || fMerged == nil {
+		return []Obligation{undecided(R, "entry cache", "-", "Modules.entryCache / Modules.mergedSubmodule not found")}
+	}
+	var obs []Obligation
+	for _, fn := range c.Funcs {
+		if !c.isRepoFn(fn) || fn.Parent() != nil || c.isConstructor(fn) {
+			continue
+		}
+		clears := false
+		for _, st := range storesToField(fn, fCache) {
+			if _, isAl := rootOf(st.Addr).(*ssa.Alloc); isAl {
+				continue
+			}
+			if _, isMake := st.Val.(*ssa.MakeMap); isMake {
+				clears = true
+			}
+		}
+		if !clears {
+			continue
+		}
+		con := fmt.Sprintf("%s: emptying the entry cache also empties the merged-submodule record", c.FnName(fn))
+		also := false
+		for _, st := range c.storesToFieldDeep(fn, fMerged) {
+			if _, isMake := st.Val.(*ssa.MakeMap); isMake {
+				also = true
+			}
+		}
+		if also {
+			obs = append(obs, ok(R, con, c.Pos(fn.Pos()), "both tables are stored afresh"))
+		} else {
+			obs = append(obs, bad(R, con, c.Pos(fn.Pos()), "the entries are dropped and the record of what was merged into them is kept: the entries built next skip every include as already merged — ClearEntryCache followed by ToEntry returns a module without the nodes of its submodules"))
+		}
+	}
+	if len(obs) == 0 {
+		obs = append(obs, undecided(R, "entry cache", "-", "no function empties Modules.entryCache"))
+	}
+	return obs
+}
